@@ -28,6 +28,7 @@ type World struct {
 	timeout  int
 	tier     string
 	maxCex   int
+	noMerge  bool
 }
 
 // packages whose functions are executed from SSA when no model is registered
@@ -102,11 +103,12 @@ type HarnessReport struct {
 	KnownHit    []string       `json:"known_hit,omitempty"`
 	Labels      map[string]int `json:"assert_labels"`
 	Truncated   bool           `json:"truncated,omitempty"`
+	ForkSites   map[string]int `json:"fork_sites,omitempty"`
 }
 
 func (w *World) runPath(sol *Solver, fn *ssa.Function, prefix []int) (res *PathResult) {
 	sol.Reset()
-	e := &Exec{W: w, sol: sol, harness: fn.Name(), prefix: prefix, globals: map[*ssa.Global]*Obj{}, symN: map[string]int{}, cfg: defaultCfg(), u64memo: map[string]*Term{}, extra: map[string]any{}}
+	e := &Exec{W: w, sol: sol, harness: fn.Name(), prefix: prefix, globals: map[*ssa.Global]*Obj{}, symN: map[string]int{}, cfg: defaultCfg(), u64memo: map[string]*Term{}, extra: map[string]any{}, symPtrs: map[string]Ptr{}}
 	e.res = &PathResult{Harness: fn.Name(), Funcs: map[string]bool{}, Stubs: map[string]bool{}}
 	e.state = newState()
 	res = e.res
@@ -188,6 +190,12 @@ func (w *World) explore(fn *ssa.Function, workers int, maxPaths int) *HarnessRep
 				}
 				for _, k := range r.KnownHit {
 					known[k] = true
+				}
+				if rep.ForkSites == nil {
+					rep.ForkSites = map[string]int{}
+				}
+				for k, v := range r.ForkSites {
+					rep.ForkSites[k] += v
 				}
 				switch r.Status {
 				case "unsupported":
